@@ -293,6 +293,34 @@ def params(sh):
               ('fs-numpy|find_extrema fs=%s' % tag, exp, lambda val=val: find_extrema(sig, val, FR)),
               ('fs-numpy|limit_df fs=%s' % tag, exp, lambda val=val: limit_df(df.copy(), val, 0, 1)),
               ('fs-numpy|Bycycle.fit fs=%s' % tag, exp, lambda val=val: Bycycle().fit(sig, val, FR))]
+    # tables / label arrays without any cycle: the settings are checked all the same
+    empty_tab = df.iloc[0:0]
+    P += [('min_n_cycles-empty|check_min_burst_cycles(empty) -1', 'reject', lambda: check_min_burst_cycles(np.array([], dtype=bool), min_n_cycles=-1)),
+          ('min_n_cycles-empty|detect_bursts_cycles(empty table) -1', 'reject', lambda: detect_bursts_cycles(empty_tab.copy(), min_n_cycles=-1)),
+          ('thr-empty|detect_bursts_cycles(empty table) monotonicity 1.5', 'reject', lambda: detect_bursts_cycles(empty_tab.copy(), monotonicity_threshold=1.5)),
+          ('min_n_cycles-empty-valid|detect_bursts_cycles(empty table) 2', 'accept', lambda: detect_bursts_cycles(empty_tab.copy(), min_n_cycles=2))]
+    # per-epoch option lists (axis=None): an out-of-range threshold is rejected wherever it sits in the list - in the first entry, in
+    # the entry of an epoch that holds cycles and in the entry of an epoch that holds none
+    ep = tiny(None)[:160].reshape(32, 5)
+    try:
+        with quiet():
+            tabs = compute_features_2d(ep, FS, FR, compute_features_kwargs=[{} for _ in range(len(ep))], axis=None, n_jobs=1)
+        empty = [i for i, t in enumerate(tabs) if len(t) == 0 and i > 0]
+        full = [i for i, t in enumerate(tabs) if len(t) > 0 and i > 0]
+    except Exception:
+        empty, full = [], []
+    for where, idxs in (('first-entry', [0]), ('epoch-with-cycles', full[:2]), ('epoch-without-cycles', empty[:3])):
+        for i in idxs:
+            for key, val in (('amp_consistency_threshold', 1.5), ('monotonicity_threshold', -1.0), ('min_n_cycles', -2)):
+                def fn(i=i, key=key, val=val):
+                    kws = [{} for _ in range(len(ep))]
+                    kws[i] = {'threshold_kwargs': {key: val}}
+                    return compute_features_2d(ep, FS, FR, compute_features_kwargs=kws, axis=None, n_jobs=1)
+                P.append(('thr-per-epoch|%s entry %d %s=%r' % (where, i, key, val), 'reject', fn))
+                sh.note('per_epoch_probe:' + where) if sh.shard == 0 else None
+    P.append(('thr-per-epoch-valid|all entries valid', 'accept',
+              lambda: compute_features_2d(ep, FS, FR, compute_features_kwargs=[{'threshold_kwargs': {'monotonicity_threshold': .5}} for _ in range(len(ep))],
+                                          axis=None, n_jobs=1)))
     # enumerations
     for val in ('middle', 'Peak', None, 0):
         P += [('center_extrema|compute_features %r' % (val,), 'reject', lambda val=val: compute_features(sig, FS, FR, center_extrema=val)),
